@@ -401,6 +401,10 @@ Theorem arrays_same_net x y : valid d x -> valid d y -> (same_net d x y <-> same
 Proof.
   exact (sim_same_net d d' mu rho MR ar_top ar_desc ar_ports ar_sigs ar_inst ar_single ar_inj ar_loc ar_val (wfs_step_total d Hwfs) x y).
 Qed.
+Theorem arrays_dev x dev : valid d x -> dev_at d x = Ok dev -> dev_at d' (phi d rho x) = Ok dev.
+Proof.
+  exact (sim_dev d d' mu rho MR ar_top ar_desc ar_ports ar_sigs ar_inst ar_single ar_inj ar_loc ar_val (wfs_step_total d Hwfs) x dev).
+Qed.
 End ArraysPass.
 
 (* ------------------------------------------------------------------------------------------ wfs is kept *)
